@@ -549,7 +549,9 @@ func (s *State) evalBuiltin(node *ast.Builtin) object.Object {
 	}
 	var val object.Object
 	var rt object.Type
-	if minV > 0 {
+	// print, println, log and error evaluate (all) their arguments themselves: don't evaluate the first one twice.
+	selfEval := (t == token.PRINT || t == token.PRINTLN || t == token.LOG || t == token.ERROR)
+	if minV > 0 && !selfEval {
 		val = s.evalInternal(node.Parameters[0])
 		rt = val.Type()
 		if rt == object.ERROR && t != token.LOG && t != token.CATCH { // log can log (and thus catch) errors.
